@@ -36,6 +36,10 @@ struct AsyncClientInner {
     /// frame, so nothing more may be written to it: the next writer shuts the
     /// connection down instead. Read and written under the `writer` lock.
     write_interrupted: AtomicBool,
+    /// Set by the reader once the connection failed. Checked before a caller
+    /// queues for the `writer` lock, which another task may hold for as long
+    /// as its write is stalled.
+    closed: AtomicBool,
 }
 
 /// Marks the connection as ending in a partial frame unless the frame write it
@@ -130,6 +134,7 @@ impl AsyncClient {
             next_id: AtomicU64::new(1),
             shutdown: StdMutex::new(Some(shutdown_tx)),
             write_interrupted: AtomicBool::new(false),
+            closed: AtomicBool::new(false),
         });
 
         spawn_response_loop(
@@ -695,6 +700,12 @@ impl AsyncClient {
     }
 
     async fn write_request(&self, msg: &Message) -> Result<(), RepeError> {
+        if self.inner.closed.load(Ordering::Acquire) {
+            return Err(RepeError::Io(std::io::Error::new(
+                ErrorKind::BrokenPipe,
+                "connection closed",
+            )));
+        }
         let mut writer = self.inner.writer.lock().await;
         if self.inner.write_interrupted.load(Ordering::Acquire) {
             // An earlier frame was left half written: appending this one would
@@ -940,18 +951,30 @@ async fn fail_all_pending(inner: &std::sync::Weak<AsyncClientInner>, err: RepeEr
         return;
     };
 
+    // Later calls fail without queueing for the writer lock, and the calls in
+    // flight are failed before waiting for it: another task may hold it for
+    // as long as its write is stalled, and nobody should wait on that to
+    // learn the connection is gone.
+    inner_ref.closed.store(true, Ordering::Release);
+    fail_waiters(&inner_ref, &err);
+
     {
         let mut writer = inner_ref.writer.lock().await;
         let _ = writer.shutdown().await;
     }
 
+    // Again, for calls that registered and wrote before the shutdown above.
+    fail_waiters(&inner_ref, &err);
+}
+
+fn fail_waiters(inner: &AsyncClientInner, err: &RepeError) {
     let waiters = {
-        let mut pending = lock_pending_map(&inner_ref.pending);
+        let mut pending = lock_pending_map(&inner.pending);
         pending.drain().collect::<Vec<_>>()
     };
 
     for (request_id, sender) in waiters {
-        let _ = sender.send(Err(clone_fatal_error_for_waiter(&err, request_id)));
+        let _ = sender.send(Err(clone_fatal_error_for_waiter(err, request_id)));
     }
 }
 
